@@ -42,3 +42,11 @@ fn entry_gs2(args: &[&str]) -> String {
     };
     run_q(script, || two::query(&addr(port), timeout(r)), show_response)
 }
+
+crate::impl_view_dump!(
+    gamedig::protocols::gamespy::two::Response,
+    "protocols/gamespy/protocols/two/types.rs",
+    "Response",
+    "protocols/gamespy/protocols/two/types.rs",
+    "Player"
+);
